@@ -612,6 +612,80 @@ theorem byzPhase_frame (P : Params) (o : Oracle) (h : Nat) (l : List Nat) (s s' 
             · simp [ihu]
 
 
+/-! ### Candidate ids -/
+
+theorem map_updFirst_same {α β : Type} (g : α → β) (p : α → Bool) (f : α → α) (l : List α) (hg : ∀ x, g (f x) = g x) :
+    (updFirst p f l).map g = l.map g := by
+  induction l with
+  | nil => simp [updFirst]
+  | cons x t ih =>
+    simp only [updFirst]
+    split
+    · simp [hg]
+    · simp [ih]
+
+theorem findFirst_candById_none (id : Nat) (l : List Candidate) :
+    findFirst (candById id) l = none ↔ (l.map (·.id)).contains id = false := by
+  induction l with
+  | nil => simp [findFirst]
+  | cons x t ih =>
+    simp only [findFirst, candById, List.map_cons, List.contains_cons]
+    by_cases hx : x.id = id
+    · simp [hx]
+    · have h1 : (x.id == id) = false := by simpa using hx
+      have h2 : (id == x.id) = false := by simpa using (fun h : id = x.id => hx h.symm)
+      simp only [h1, h2, Bool.false_or]
+      simpa [candById] using ih
+
+theorem setAbsent_ids (P : Params) (h : Nat) (g : Bool) (a : Nat) (s s' : State) (ev : List BEvent)
+    (hr : setAbsent P h g a s = .ok (s', ev)) : s'.candidates.map (·.id) = s.candidates.map (·.id) := by
+  unfold setAbsent at hr
+  cases hv : findFirst (valByTm a) s.validators with
+  | none => simp only [hv] at hr; cases hr; rfl
+  | some v =>
+    simp only [hv] at hr
+    by_cases hc : crossedAbsent h v = true
+    · simp only [hc, if_true] at hr
+      cases hcd : findFirst (candByPub v.pubkey) s.candidates with
+      | none => simp only [hcd] at hr; cases hr
+      | some c =>
+        simp only [hcd] at hr
+        cases hr
+        exact map_updFirst_same _ _ _ _ (fun _ => rfl)
+    · simp only [hc] at hr
+      cases hr; rfl
+
+theorem absencePhase_ids (P : Params) (h : Nat) (g : Bool) (vs : List (Nat × Bool)) (s s' : State) (ev : List BEvent)
+    (hr : absencePhase P h g vs s = .ok (s', ev)) : s'.candidates.map (·.id) = s.candidates.map (·.id) := by
+  induction vs generalizing s ev with
+  | nil => simp only [absencePhase] at hr; cases hr; rfl
+  | cons x t ih =>
+    obtain ⟨a, b⟩ := x
+    cases b with
+    | true =>
+      simp only [absencePhase] at hr
+      exact ih (setPresent h a s) _ hr
+    | false =>
+      simp only [absencePhase] at hr
+      cases h1 : setAbsent P h g a s with
+      | error e => simp only [h1] at hr; cases hr
+      | ok r1 =>
+        obtain ⟨s1, e1⟩ := r1
+        simp only [h1] at hr
+        cases h2 : absencePhase P h g t s1 with
+        | error e => simp only [h2] at hr; cases hr
+        | ok r2 =>
+          obtain ⟨s2, e2⟩ := r2
+          simp only [h2] at hr
+          cases hr
+          exact (ih _ _ h2).trans (setAbsent_ids P h g a s s1 e1 h1)
+
+theorem byzPhase_ids (P : Params) (o : Oracle) (h : Nat) (l : List Nat) (s s' : State) (ev : List BEvent)
+    (hr : byzPhase P o h l s = .ok (s', ev)) : s'.candidates.map (·.id) = s.candidates.map (·.id) := by
+  have := (byzPhase_frame P o h l s s' ev hr).2.2.2
+  have := congrArg (List.map (fun x : Nat × Nat × Nat × Nat × List Stake => x.1)) this
+  simpa [List.map_map, Function.comp_def] using this
+
 /-! ### Maturity -/
 
 /-- The balances after crediting the non-move items of a list, in order. -/
@@ -624,9 +698,11 @@ def moveUpdate (f : Frozen) : Stake := { owner := f.addr, coin := f.coin, value 
 
 def addUpdate (f : Frozen) (c : Candidate) : Candidate := { c with updates := c.updates ++ [moveUpdate f] }
 
+/-- A move whose target id is not among the candidate ids `ids`. -/
+def targetMissing (ids : List Nat) (f : Frozen) : Bool := f.moveTo != 0 && !ids.contains f.moveTo
+
 /-- What one matured item leaves alone. -/
 structure MatureFrame (s s' : State) : Prop where
-  frozen : s'.frozen = s.frozen
   coins : s'.coins = s.coins
   slashed : s'.slashed = s.slashed
   waitlist : s'.waitlist = s.waitlist
@@ -635,116 +711,171 @@ structure MatureFrame (s s' : State) : Prop where
   validators : s'.validators = s.validators
   rewardsPool : s'.rewardsPool = s.rewardsPool
   lockStake : s'.lockStake = s.lockStake
+  ids : s'.candidates.map (·.id) = s.candidates.map (·.id)
 
-theorem matureOne_credit (f : Frozen) (s s' : State) (e : BEvent) (h0 : f.moveTo = 0) (hr : matureOne f s = .ok (s', e)) :
-    s'.balances = Bag.add s.balances (f.addr, f.coin) f.value ∧ s'.candidates = s.candidates ∧ MatureFrame s s' := by
+theorem matureOne_credit (u h : Nat) (f : Frozen) (s s' : State) (e : List BEvent) (h0 : f.moveTo = 0)
+    (hr : matureOne u h f s = .ok (s', e)) :
+    s'.balances = Bag.add s.balances (f.addr, f.coin) f.value ∧ s'.candidates = s.candidates ∧ s'.frozen = s.frozen
+    ∧ MatureFrame s s' := by
   simp only [matureOne, h0, if_true] at hr
   cases hr
-  exact ⟨rfl, rfl, ⟨rfl, rfl, rfl, rfl, rfl, rfl, rfl, rfl, rfl⟩⟩
+  exact ⟨rfl, rfl, rfl, ⟨rfl, rfl, rfl, rfl, rfl, rfl, rfl, rfl, rfl⟩⟩
 
-theorem matureOne_move (f : Frozen) (s s' : State) (e : BEvent) (h0 : f.moveTo ≠ 0) (hr : matureOne f s = .ok (s', e)) :
-    s'.balances = s.balances
-    ∧ (∃ c, findFirst (candById f.moveTo) s.candidates = some c
-        ∧ findFirst (candById f.moveTo) s'.candidates = some (addUpdate f c))
+theorem matureOne_move (u h : Nat) (f : Frozen) (s s' : State) (e : List BEvent) (h0 : f.moveTo ≠ 0) (c : Candidate)
+    (hc : findFirst (candById f.moveTo) s.candidates = some c) (hr : matureOne u h f s = .ok (s', e)) :
+    s'.balances = s.balances ∧ s'.frozen = s.frozen
+    ∧ findFirst (candById f.moveTo) s'.candidates = some (addUpdate f c)
     ∧ s'.candidates = updFirst (candById f.moveTo) (addUpdate f) s.candidates ∧ MatureFrame s s' := by
-  simp only [matureOne, h0, if_false] at hr
+  simp only [matureOne, h0, if_false, hc] at hr
   cases hk : f.candKey with
   | none => simp only [hk] at hr; cases hr
   | some k =>
     simp only [hk] at hr
-    cases hc : findFirst (candById f.moveTo) s.candidates with
-    | none => simp only [hc] at hr; cases hr
-    | some c =>
-      simp only [hc] at hr
-      cases hr
-      refine ⟨rfl, ⟨c, rfl, ?_⟩, rfl, ⟨rfl, rfl, rfl, rfl, rfl, rfl, rfl, rfl, rfl⟩⟩
-      show findFirst (candById f.moveTo) (updFirst (candById f.moveTo) (addUpdate f) s.candidates) = _
+    cases hr
+    refine ⟨rfl, rfl, ?_, rfl, ⟨rfl, rfl, rfl, rfl, rfl, rfl, rfl, rfl, ?_⟩⟩
+    · show findFirst (candById f.moveTo) (updFirst (candById f.moveTo) (addUpdate f) s.candidates) = _
       rw [findFirst_updFirst (candById f.moveTo) (addUpdate f) s.candidates (fun _ => rfl), hc]; rfl
+    · exact map_updFirst_same _ _ _ _ (fun _ => rfl)
 
-/-- A move whose target is not a candidate is never executed: the node panics (nil dereference in `Candidates.Delegate`). -/
-theorem matureOne_move_missing (f : Frozen) (s : State) (h0 : f.moveTo ≠ 0)
-    (hc : findFirst (candById f.moveTo) s.candidates = none) : ∃ w, matureOne f s = .error (.panic w) := by
-  simp only [matureOne, h0, if_false]
-  cases hk : f.candKey with
-  | none => exact ⟨_, rfl⟩
-  | some k => simp only [hc]; exact ⟨_, rfl⟩
+/-- A move whose target is not (any more) a candidate is re-frozen as an unbond due one unbond period later; nothing else changes. -/
+theorem matureOne_refreeze (u h : Nat) (f : Frozen) (s : State) (h0 : f.moveTo ≠ 0)
+    (hc : findFirst (candById f.moveTo) s.candidates = none) :
+    matureOne u h f s = .ok ({ s with frozen := s.frozen ++ [refreeze u h f] }, []) := by
+  simp only [matureOne, h0, if_false, hc]
 
-theorem matureOne_holdings (f : Frozen) (s s' : State) (e : BEvent) (hr : matureOne f s = .ok (s', e)) (k : Coin) :
+theorem matureOne_holdings (u h : Nat) (f : Frozen) (s s' : State) (e : List BEvent) (hr : matureOne u h f s = .ok (s', e)) (k : Coin) :
     holdings s' k = holdings s k + (if f.coin = k then f.value else 0) ∧ MatureFrame s s' := by
   by_cases h0 : f.moveTo = 0
-  · obtain ⟨hb, hc, fr⟩ := matureOne_credit f s s' e h0 hr
+  · obtain ⟨hb, hc, hf, fr⟩ := matureOne_credit u h f s s' e h0 hr
     refine ⟨?_, fr⟩
-    simp only [holdings_def, hb, hc, fr.frozen, fr.waitlist, fr.pools, fr.orders, Bag.sumIf_add]
+    simp only [holdings_def, hb, hc, hf, fr.waitlist, fr.pools, fr.orders, Bag.sumIf_add]
     by_cases hk : f.coin = k <;> simp [hk] <;> omega
-  · obtain ⟨hb, ⟨c, hc, _⟩, hcd, fr⟩ := matureOne_move f s s' e h0 hr
-    refine ⟨?_, fr⟩
-    simp only [holdings_def, hb, hcd, fr.frozen, fr.waitlist, fr.pools, fr.orders, sumBy_updFirst, updDelta, hc,
-      candHoldings, addUpdate, sumBy_append, sumBy_single, moveUpdate, stakeOf]
-    omega
+  · cases hc : findFirst (candById f.moveTo) s.candidates with
+    | none =>
+      rw [matureOne_refreeze u h f s h0 hc] at hr
+      cases hr
+      refine ⟨?_, ⟨rfl, rfl, rfl, rfl, rfl, rfl, rfl, rfl, rfl⟩⟩
+      simp only [holdings_def, sumBy_append, sumBy_single, refreeze]
+      omega
+    | some c =>
+      obtain ⟨hb, hf, _, hcd, fr⟩ := matureOne_move u h f s s' e h0 c hc hr
+      refine ⟨?_, fr⟩
+      simp only [holdings_def, hb, hcd, hf, fr.waitlist, fr.pools, fr.orders, sumBy_updFirst, updDelta, hc,
+        candHoldings, addUpdate, sumBy_append, sumBy_single, moveUpdate, stakeOf]
+      omega
 
 theorem MatureFrame.refl (s : State) : MatureFrame s s := ⟨rfl, rfl, rfl, rfl, rfl, rfl, rfl, rfl, rfl⟩
 
 theorem MatureFrame.trans {a b c : State} (h1 : MatureFrame a b) (h2 : MatureFrame b c) : MatureFrame a c :=
-  ⟨h2.frozen.trans h1.frozen, h2.coins.trans h1.coins, h2.slashed.trans h1.slashed, h2.waitlist.trans h1.waitlist,
+  ⟨h2.coins.trans h1.coins, h2.slashed.trans h1.slashed, h2.waitlist.trans h1.waitlist,
    h2.pools.trans h1.pools, h2.orders.trans h1.orders, h2.validators.trans h1.validators,
-   h2.rewardsPool.trans h1.rewardsPool, h2.lockStake.trans h1.lockStake⟩
+   h2.rewardsPool.trans h1.rewardsPool, h2.lockStake.trans h1.lockStake, h2.ids.trans h1.ids⟩
 
-theorem matureAll_effect (l : List Frozen) (s s' : State) (ev : List BEvent) (hr : matureAll l s = .ok (s', ev)) :
+/-- The frozen list after one matured item, by the candidate ids of the state. -/
+theorem matureOne_frozen (u h : Nat) (f : Frozen) (s s' : State) (e : List BEvent) (hr : matureOne u h f s = .ok (s', e)) :
+    s'.frozen = s.frozen ++ ([f].filter (targetMissing (s.candidates.map (·.id)))).map (refreeze u h) := by
+  by_cases h0 : f.moveTo = 0
+  · obtain ⟨_, _, hf, _⟩ := matureOne_credit u h f s s' e h0 hr
+    have ht : targetMissing (s.candidates.map (·.id)) f = false := by simp [targetMissing, h0]
+    simp [hf, List.filter, ht]
+  · cases hc : findFirst (candById f.moveTo) s.candidates with
+    | none =>
+      rw [matureOne_refreeze u h f s h0 hc] at hr
+      cases hr
+      have hcon := (findFirst_candById_none f.moveTo s.candidates).mp hc
+      have ht : targetMissing (s.candidates.map (·.id)) f = true := by
+        simp only [targetMissing, hcon, Bool.not_false, Bool.and_true, bne_iff_ne]; exact h0
+      simp [List.filter, ht]
+    | some c =>
+      obtain ⟨_, hf, _, _, _⟩ := matureOne_move u h f s s' e h0 c hc hr
+      have hn : (s.candidates.map (·.id)).contains f.moveTo = true := by
+        cases hcon : (s.candidates.map (·.id)).contains f.moveTo with
+        | true => rfl
+        | false => rw [(findFirst_candById_none f.moveTo s.candidates).mpr hcon] at hc; cases hc
+      have ht : targetMissing (s.candidates.map (·.id)) f = false := by
+        simp only [targetMissing, hn, Bool.not_true, Bool.and_false]
+      simp [hf, List.filter, ht]
+
+theorem matureAll_effect (u h : Nat) (l : List Frozen) (s s' : State) (ev : List BEvent) (hr : matureAll u h l s = .ok (s', ev)) :
     s'.balances = creditAll l s.balances
+    ∧ s'.frozen = s.frozen ++ (l.filter (targetMissing (s.candidates.map (·.id)))).map (refreeze u h)
     ∧ (∀ k, holdings s' k = holdings s k + sumBy (fun f => if f.coin = k then f.value else 0) l)
     ∧ MatureFrame s s' := by
   induction l generalizing s ev with
-  | nil => simp only [matureAll] at hr; cases hr; exact ⟨rfl, fun k => by simp [sumBy], MatureFrame.refl _⟩
+  | nil => simp only [matureAll] at hr; cases hr; exact ⟨rfl, by simp, fun k => by simp [sumBy], MatureFrame.refl _⟩
   | cons f t ih =>
     simp only [matureAll] at hr
-    cases h1 : matureOne f s with
+    cases h1 : matureOne u h f s with
     | error e => simp only [h1] at hr; cases hr
     | ok r1 =>
       obtain ⟨s1, e1⟩ := r1
       simp only [h1] at hr
-      cases h2 : matureAll t s1 with
+      cases h2 : matureAll u h t s1 with
       | error e => simp only [h2] at hr; cases hr
       | ok r2 =>
         obtain ⟨s2, e2⟩ := r2
         simp only [h2] at hr
         cases hr
-        obtain ⟨ib, ih2, ifr⟩ := ih _ _ h2
-        have hfr := (matureOne_holdings f s s1 e1 h1 0).2
-        refine ⟨?_, fun k => ?_, hfr.trans ifr⟩
+        obtain ⟨ib, ifz, ih2, ifr⟩ := ih _ _ h2
+        have hfr := (matureOne_holdings u h f s s1 e1 h1 0).2
+        refine ⟨?_, ?_, fun k => ?_, hfr.trans ifr⟩
         · rw [ib]
           simp only [creditAll]
           by_cases h0 : f.moveTo = 0
-          · rw [(matureOne_credit f s s1 e1 h0 h1).1]; simp [h0]
-          · rw [(matureOne_move f s s1 e1 h0 h1).1]; simp [h0]
-        · rw [ih2 k, (matureOne_holdings f s s1 e1 h1 k).1]
+          · rw [(matureOne_credit u h f s s1 e1 h0 h1).1]; simp [h0]
+          · cases hc : findFirst (candById f.moveTo) s.candidates with
+            | none => rw [matureOne_refreeze u h f s h0 hc] at h1; cases h1; simp [h0]
+            | some c => rw [(matureOne_move u h f s s1 e1 h0 c hc h1).1]; simp [h0]
+        · rw [ifz, matureOne_frozen u h f s s1 e1 h1, hfr.ids]
+          simp [List.filter_cons]
+          split <;> simp
+        · rw [ih2 k, (matureOne_holdings u h f s s1 e1 h1 k).1]
           simp only [sumBy]; omega
 
-theorem maturityPhase_effect (h : Nat) (s s' : State) (ev : List BEvent) (hr : maturityPhase h s = .ok (s', ev)) :
+theorem refreeze_not_due (u h : Nat) (hu : 0 < u) (f : Frozen) : dueAt h (refreeze u h f) = false := by
+  simp [dueAt, refreeze]; omega
+
+theorem maturityPhase_effect (u h : Nat) (hu : 0 < u) (s s' : State) (ev : List BEvent) (hr : maturityPhase u h s = .ok (s', ev)) :
     s'.frozen = s.frozen.filter (fun f => !dueAt h f)
+        ++ ((s.frozen.filter (dueAt h)).filter (targetMissing (s.candidates.map (·.id)))).map (refreeze u h)
     ∧ s'.balances = creditAll (s.frozen.filter (dueAt h)) s.balances
     ∧ (∀ k, holdings s' k = holdings s k)
     ∧ s'.coins = s.coins ∧ s'.slashed = s.slashed ∧ s'.validators = s.validators
     ∧ s'.rewardsPool = s.rewardsPool ∧ s'.lockStake = s.lockStake := by
   simp only [maturityPhase] at hr
-  cases h1 : matureAll (s.frozen.filter (dueAt h)) s with
+  cases h1 : matureAll u h (s.frozen.filter (dueAt h)) s with
   | error e => simp only [h1] at hr; cases hr
   | ok r1 =>
     obtain ⟨s1, e1⟩ := r1
     simp only [h1] at hr
     cases hr
-    obtain ⟨hb, hh, fr⟩ := matureAll_effect _ _ _ _ h1
-    refine ⟨by simp only [fr.frozen], hb, fun k => ?_, fr.coins, fr.slashed, fr.validators, fr.rewardsPool, fr.lockStake⟩
-    have e1' : holdings { s1 with frozen := s1.frozen.filter (fun f => !dueAt h f) } k
-        = holdings s1 k - sumBy (fun f => if f.coin = k then f.value else 0) (s1.frozen.filter (dueAt h)) := by
-      have := sumBy_filter_split (fun f : Frozen => if f.coin = k then f.value else 0) (dueAt h) s1.frozen
-      simp only [holdings_def]
+    obtain ⟨hb, hfz, hh, fr⟩ := matureAll_effect _ _ _ _ _ _ h1
+    have hkeep : ∀ (R : List Frozen), (R.map (refreeze u h)).filter (fun f => !dueAt h f) = R.map (refreeze u h) := by
+      intro R
+      apply List.filter_eq_self.mpr
+      intro x hx
+      obtain ⟨y, _, rfl⟩ := List.mem_map.mp hx
+      simp [refreeze_not_due u h hu y]
+    have hdue : ∀ (R : List Frozen), (R.map (refreeze u h)).filter (dueAt h) = [] := by
+      intro R
+      apply List.filter_eq_nil_iff.mpr
+      intro x hx
+      obtain ⟨y, _, rfl⟩ := List.mem_map.mp hx
+      simp [refreeze_not_due u h hu y]
+    refine ⟨?_, hb, fun k => ?_, fr.coins, fr.slashed, fr.validators, fr.rewardsPool, fr.lockStake⟩
+    · show s1.frozen.filter (fun f => !dueAt h f) = _
+      rw [hfz, List.filter_append, hkeep]
+    · have e1' : holdings { s1 with frozen := s1.frozen.filter (fun f => !dueAt h f) } k
+          = holdings s1 k - sumBy (fun f => if f.coin = k then f.value else 0) (s1.frozen.filter (dueAt h)) := by
+        have := sumBy_filter_split (fun f : Frozen => if f.coin = k then f.value else 0) (dueAt h) s1.frozen
+        simp only [holdings_def]
+        omega
+      rw [e1', hh k, hfz, List.filter_append, hdue, List.append_nil]
       omega
-    rw [e1', hh k, fr.frozen]
-    omega
 
-theorem maturityPhase_conserves (h : Nat) (s s' : State) (ev : List BEvent) (hr : maturityPhase h s = .ok (s', ev)) :
+theorem maturityPhase_conserves (u h : Nat) (hu : 0 < u) (s s' : State) (ev : List BEvent) (hr : maturityPhase u h s = .ok (s', ev)) :
     (∀ k, volumeOf s' k - holdings s' k = volumeOf s k - holdings s k) ∧ baseTotal s' = baseTotal s := by
-  obtain ⟨_, _, hh, hc, hs, hv, _, _⟩ := maturityPhase_effect h s s' ev hr
+  obtain ⟨_, _, hh, hc, hs, hv, _, _⟩ := maturityPhase_effect u h hu s s' ev hr
   constructor
   · intro k; simp only [volumeOf, hc, hh k]
   · simp only [baseTotal, hh 0, totalReserve, totalAccum, hc, hs, hv]
